@@ -23,7 +23,8 @@ func parseRecord(r []byte) (Record, error) {
 	header, body := r[n:hSize], r[hSize:]
 	for len(header) > 0 {
 		c, n := readVarint(header)
-		if n < 0 {
+		if n < 0 || c < 0 {
+			// c < 0: a 9 byte varint with the top bit set is no serial type
 			return res, ErrCorrupted
 		}
 		header = header[n:]
